@@ -51,9 +51,114 @@ pub fn tmpl_roundtrip(src: &str) -> Option<(String, String)> {
     None
 }
 
+/// first token of a stylesheet text, summarised (comments and whitespace are tokens here)
+#[derive(Debug, Clone, PartialEq)]
+enum Tk {
+    Ident(String),
+    AtKw(String),
+    Hash(String),
+    Str(String),
+    Url(String),
+    Delim(char),
+    Number(String),
+    Percentage(String),
+    Dimension(String, String),
+    Ws,
+    Comment,
+    Colon,
+    Semi,
+    Comma,
+    Match(String),
+    Cd(String),
+    Function(String),
+    Open(char),
+    Close(char),
+    Bad,
+    Eof,
+}
+
+fn first_tk(text: &str) -> Tk {
+    use cssparser::{Parser, ParserInput, Token};
+    let mut input = ParserInput::new(text);
+    let mut p = Parser::new(&mut input);
+    let t = match p.next_including_whitespace_and_comments() {
+        Ok(t) => t.clone(),
+        Err(_) => return Tk::Eof,
+    };
+    match t {
+        Token::Ident(v) => Tk::Ident(v.to_string()),
+        Token::AtKeyword(v) => Tk::AtKw(v.to_string()),
+        Token::Hash(v) | Token::IDHash(v) => Tk::Hash(v.to_string()),
+        Token::QuotedString(v) => Tk::Str(v.to_string()),
+        Token::UnquotedUrl(v) => Tk::Url(v.to_string()),
+        Token::Delim(c) => Tk::Delim(c),
+        // numeric values are C10's subject (and rounded to 6 digits, a known finding): kind and unit only
+        Token::Number { .. } => Tk::Number(String::new()),
+        Token::Percentage { .. } => Tk::Percentage(String::new()),
+        Token::Dimension { unit, .. } => Tk::Dimension(String::new(), unit.to_ascii_lowercase()),
+        Token::WhiteSpace(_) => Tk::Ws,
+        Token::Comment(_) => Tk::Comment,
+        Token::Colon => Tk::Colon,
+        Token::Semicolon => Tk::Semi,
+        Token::Comma => Tk::Comma,
+        Token::IncludeMatch => Tk::Match("~=".into()),
+        Token::DashMatch => Tk::Match("|=".into()),
+        Token::PrefixMatch => Tk::Match("^=".into()),
+        Token::SuffixMatch => Tk::Match("$=".into()),
+        Token::SubstringMatch => Tk::Match("*=".into()),
+        Token::CDO => Tk::Cd("<!--".into()),
+        Token::CDC => Tk::Cd("-->".into()),
+        Token::Function(v) => Tk::Function(v.to_string()),
+        Token::ParenthesisBlock => Tk::Open('('),
+        Token::SquareBracketBlock => Tk::Open('['),
+        Token::CurlyBracketBlock => Tk::Open('{'),
+        Token::CloseParenthesis => Tk::Close(')'),
+        Token::CloseSquareBracket => Tk::Close(']'),
+        Token::CloseCurlyBracket => Tk::Close('}'),
+        Token::BadUrl(_) | Token::BadString(_) => Tk::Bad,
+    }
+}
+
+/// Does the output token `o` correspond to the source token `s` its source-map entry names? (C19: a copied token is the
+/// same token; a closing bracket may name its opening bracket; a rewritten rpx value / prefixed class names the original;
+/// what a rewrite synthesises names the construct that triggered it: the `@import`, the `:` of `:host`.)
+fn corresponds(s: &Tk, o: &Tk, prefixed: bool, low: bool) -> bool {
+    if s == o {
+        return true;
+    }
+    match (s, o) {
+        // the `[wx-host=..]` selector of a converted `:host` rule is written when its block starts
+        (Tk::Open('{'), _) if low => true,
+        (_, Tk::Comment) | (_, Tk::Ws) => true,
+        (Tk::Bad, _) | (_, Tk::Bad) => true,
+        (Tk::AtKw(k), _) if k.eq_ignore_ascii_case("import") => true,
+        (Tk::Colon, _) => true,
+        (Tk::Function(_), Tk::Close(')')) | (Tk::Open('('), Tk::Close(')')) | (Tk::Url(_), Tk::Close(')')) => true,
+        (Tk::Open('['), Tk::Close(']')) | (Tk::Open('{'), Tk::Close('}')) => true,
+        (Tk::Dimension(_, u), Tk::Dimension(..)) | (Tk::Dimension(_, u), Tk::Number(_)) if u.eq_ignore_ascii_case("rpx") => true,
+        (Tk::Ident(a), Tk::Ident(b)) if prefixed && b.ends_with(a.as_str()) => true,
+        // an unquoted url may be written in function form
+        (Tk::Url(_), Tk::Function(f)) if f.eq_ignore_ascii_case("url") => true,
+        (Tk::Url(a), Tk::Str(b)) => a == b,
+        _ => false,
+    }
+}
+
 /// C19 validity part + C01: the transformer returns, and every source-map token points inside the source and the
 /// destination positions never decrease, for both outputs.
 pub fn wxss_map(src: &str, opts: u8) -> Option<(String, String)> {
+    wxss_map_with(src, opts, false)
+}
+
+/// The same with the full token correspondence of C19 at both ends of every entry. Sound for sheets that tokenise the
+/// same way before and after the transformer's re-serialisation (generated sheets, possibly cut off); on arbitrary text
+/// (escaped line breaks, NUL, broken escapes at the end of the input) re-serialisation legitimately changes how a
+/// position tokenises, so the libFuzzer target uses `wxss_map`, which keeps only the rule for closing brackets.
+pub fn wxss_map_strict(src: &str, opts: u8) -> Option<(String, String)> {
+    wxss_map_with(src, opts, true)
+}
+
+fn wxss_map_with(src: &str, opts: u8, strict: bool) -> Option<(String, String)> {
     use glass_easel_stylesheet_compiler::{StyleSheetOptions, StyleSheetTransformer};
     let options = StyleSheetOptions {
         class_prefix: if opts & 1 != 0 { Some("p".into()) } else { None },
@@ -67,20 +172,91 @@ pub fn wxss_map(src: &str, opts: u8) -> Option<(String, String)> {
     let (a, b) = t.output_and_low_priority_output();
     // CSS line breaks: LF, CRLF, CR and FF (css-syntax: preprocessing)
     let mut lines: Vec<String> = vec![String::new()];
-    let mut it = src.chars().peekable();
-    while let Some(c) = it.next() {
+    let mut starts: Vec<usize> = vec![0];
+    let mut it = src.char_indices().peekable();
+    while let Some((i, c)) = it.next() {
         match c {
             '\r' => {
-                if it.peek() == Some(&'\n') {
+                let mut next = i + 1;
+                if let Some((_, '\n')) = it.peek() {
                     it.next();
+                    next += 1;
                 }
                 lines.push(String::new());
+                starts.push(next);
             }
-            '\n' | '\u{c}' => lines.push(String::new()),
+            '\n' | '\u{c}' => {
+                lines.push(String::new());
+                starts.push(i + 1);
+            }
             c => lines.last_mut().unwrap().push(c),
         }
     }
+    // byte offset of a UTF-16 column inside a text (None: inside a surrogate pair or past the end)
+    let at_col = |text: &str, col: usize| -> Option<usize> {
+        let mut u = 0usize;
+        for (i, ch) in text.char_indices() {
+            if u == col {
+                return Some(i);
+            }
+            u += ch.len_utf16();
+        }
+        if u == col {
+            Some(text.len())
+        } else {
+            None
+        }
+    };
+    let prefixed = opts & 1 != 0;
+    // byte ranges of `@import ... ;` statements: what the import rewrite synthesises points somewhere into its statement
+    let mut import_ranges: Vec<(usize, usize)> = vec![];
+    {
+        use cssparser::{Parser, ParserInput, Token};
+        fn walk(p: &mut Parser, out: &mut Vec<(usize, usize)>) {
+            let mut open: Option<usize> = None;
+            loop {
+                let before = p.position().byte_index();
+                let t = match p.next_including_whitespace_and_comments() {
+                    Ok(t) => t.clone(),
+                    Err(_) => break,
+                };
+                match t {
+                    Token::AtKeyword(ref k) if k.eq_ignore_ascii_case("import") && open.is_none() => open = Some(before),
+                    Token::Semicolon => {
+                        if let Some(s) = open.take() {
+                            out.push((s, p.position().byte_index()));
+                        }
+                    }
+                    Token::Function(_) | Token::ParenthesisBlock | Token::SquareBracketBlock | Token::CurlyBracketBlock => {
+                        let curly = matches!(t, Token::CurlyBracketBlock);
+                        if open.is_none() {
+                            let _ = p.parse_nested_block(|q| -> Result<(), cssparser::ParseError<'_, ()>> {
+                                walk(q, out);
+                                Ok(())
+                            });
+                        }
+                        if curly {
+                            if let Some(s) = open.take() {
+                                out.push((s, p.position().byte_index()));
+                            }
+                        }
+                    }
+                    _ => {}
+                }
+            }
+            if let Some(s) = open.take() {
+                out.push((s, p.position().byte_index() + 1));
+            }
+        }
+        let mut input = ParserInput::new(src);
+        let mut p = Parser::new(&mut input);
+        walk(&mut p, &mut import_ranges);
+    }
+    let in_import = |off: usize| import_ranges.iter().any(|(a, b)| off >= *a && off <= *b);
     for (which, o) in [("css", a), ("low-priority css", b)] {
+        let mut text = Vec::new();
+        let _ = o.write(&mut text);
+        let text = String::from_utf8(text).unwrap_or_default();
         let map = o.extract_source_map();
         let mut prev = (0u32, 0u32);
         for tok in map.tokens() {
@@ -92,6 +268,19 @@ pub fn wxss_map(src: &str, opts: u8) -> Option<(String, String)> {
             let (l, c) = (tok.get_src_line() as usize, tok.get_src_col() as usize);
             if l >= lines.len() || c > lines[l].encode_utf16().count() {
                 return Some(("C19".into(), format!("{}: source-map token points to {}:{} outside the source ({} lines)", which, l, c, lines.len())));
+            }
+            // the entry's two ends name corresponding tokens
+            if tok.get_dst_line() != 0 {
+                continue;
+            }
+            let (Some(so), Some(oo)) = (at_col(&lines[l], c), at_col(&text, tok.get_dst_col() as usize)) else {
+                return Some(("C19".into(), format!("{}: source-map entry {}:{} -> column {} splits a character", which, l, c, tok.get_dst_col())));
+            };
+            let stk = first_tk(&src[starts[l] + so..]);
+            let otk = first_tk(&text[oo..]);
+            let judged = strict || matches!(otk, Tk::Close(_));
+            if judged && !in_import(starts[l] + so) && !corresponds(&stk, &otk, prefixed, which != "css") {
+                return Some(("C19".into(), format!("{}: source-map entry maps output column {} ({:?}) to source {}:{} where the token is {:?} — source {:?} output {:?}", which, tok.get_dst_col(), otk, l, c, stk, crate::util::truncate(src, 200), crate::util::truncate(&text, 200))));
             }
         }
     }
